@@ -4,6 +4,15 @@ use ohmc_core::plain::*;
 use ohmc_core::uni::*;
 use rayon::prelude::*;
 
+struct Guard(String, std::time::Instant);
+impl Drop for Guard {
+    fn drop(&mut self) {
+        if self.1.elapsed().as_secs_f64() > 0.5 {
+            eprintln!("slow iso: {} {:.1}s", self.0, self.1.elapsed().as_secs_f64());
+        }
+    }
+}
+
 fn main() {
     let t0 = std::time::Instant::now();
     // 1. iso == brute force on all pairs of a tiny universe
@@ -18,11 +27,12 @@ fn main() {
                 // brute force also has to pin the interfaces: renumber compares s and t too
                 let x = iso(a, b);
                 let y = iso_brute(a, b);
+                let z = iso_refined(a, b);
                 c.0 += 1;
                 if x {
                     c.1 += 1;
                 }
-                if x != y {
+                if x != y || z != y {
                     c.2 += 1;
                 }
             }
@@ -41,7 +51,8 @@ fn main() {
             let mut b = 0;
             for np in all_permutations(x.nodes.len()) {
                 for ep in all_permutations(x.edges.len()) {
-                    if !iso(&x, &x.renumber(&np, &ep)) {
+                    let y = x.renumber(&np, &ep);
+                    if !iso(&x, &y) || !iso_refined(&x, &y) {
                         b += 1;
                     }
                 }
@@ -51,6 +62,67 @@ fn main() {
         .sum();
     println!("selftest iso-renumbering: diagrams={} failures={}", cnt, bad2);
     fail |= bad2 > 0;
+    // 2b. the propagating search agrees with the simple index-order search on all pairs of a universe with
+    //     two hyperedges (free interfaces: every component start is a choice), and on large structured
+    //     shapes against their renumberings (where the simple search is not usable)
+    let u3 = Spec::hyper(3, 2, 1, 1, 2).universe().all_open();
+    let n3 = u3.len();
+    let (p3, i3, bad2b) = (0..n3)
+        .into_par_iter()
+        .map(|i| {
+            let mut c = (0u64, 0u64, 0u64);
+            for j in 0..n3 {
+                let (x, y) = (iso_refined(&u3[i], &u3[j]), iso_simple(&u3[i], &u3[j]));
+                c.0 += 1;
+                c.1 += x as u64;
+                c.2 += (x != y) as u64;
+            }
+            c
+        })
+        .reduce(|| (0, 0, 0), |a, b| (a.0 + b.0, a.1 + b.1, a.2 + b.2));
+    println!("selftest iso-vs-simple: universe={} pairs={} isomorphic={} disagreements={}", n3, p3, i3, bad2b);
+    fail |= bad2b > 0;
+    let big = ohmc::props::structured::shapes_at(&[33, 65, 129], false);
+    let tb = std::time::Instant::now();
+    let badbig: u64 = big
+        .par_iter()
+        .map(|(name, f)| {
+            let mut b = 0u64;
+            let t1 = std::time::Instant::now();
+            let _g = Guard(name.clone(), t1);
+            for g in ohmc::props::structured::numberings(f) {
+                if !iso(f, &g) {
+                    b += 1;
+                }
+                // and a non-isomorphic neighbour: one incidence moved
+                let mut h = g.clone();
+                if let Some(e) = h.edges.iter_mut().find(|e| !e.src.is_empty()) {
+                    let old = e.src[0];
+                    e.src[0] = (old + 1) % h.nodes.len();
+                    let mut degs = vec![0usize; h.nodes.len()];
+                    for e in &h.edges {
+                        for &v in e.src.iter().chain(e.tgt.iter()) {
+                            degs[v] += 1;
+                        }
+                    }
+                    let mut dg = vec![0usize; f.nodes.len()];
+                    for e in &f.edges {
+                        for &v in e.src.iter().chain(e.tgt.iter()) {
+                            dg[v] += 1;
+                        }
+                    }
+                    degs.sort();
+                    dg.sort();
+                    if degs != dg && iso(f, &h) {
+                        b += 1;
+                    }
+                }
+            }
+            b
+        })
+        .sum();
+    println!("selftest iso-large: shapes={} failures={} ({:.1}s)", big.len(), badbig, tb.elapsed().as_secs_f64());
+    fail |= badbig > 0;
     // 3. non-isomorphism is detected: changing one incidence or one interface entry of a diagram
     //    whose nodes are all distinguishable must break isomorphism
     let x: POpen<u8, u8> = POpen { nodes: vec![0, 1, 2], edges: vec![PEdge { label: 0, src: vec![0, 1], tgt: vec![2] }], s: vec![0, 1], t: vec![2] };
